@@ -14,4 +14,5 @@ INVARIANT MutantsRFC
 INVARIANT MutantsJSON
 INVARIANT MutantsXML
 INVARIANT MutantsNs
+INVARIANT MutantsShape
 CHECK_DEADLOCK FALSE
